@@ -185,8 +185,22 @@ TrEvidence == IsEvent("Evidence") /\ LET e == Trace[l]  a == e.args IN
   /\ Report("C13.OnlySignerJailed", jailed' \ jailed \subseteq {a.v})
   /\ Conf("Evidence", (e.res = "ok") = ((IF e.known THEN <<a.n, a.x>> ELSE <<a.n, -1>>) \notin archived))
 
+\* key rotation: registering a new key changes nothing in the bridge state; evidence signed with a key that is no longer
+\* (or never was) the validator's registered key can punish nobody
+TrReKey == IsEvent("ReKey") /\ LET e == Trace[l] IN
+  /\ Obs(e.obs) /\ res' = e.res /\ punished' = punished
+  /\ UNCHANGED <<lastTx, lastBatch, tax, limit, claims, accepted, refunded, burned, deposited, burnedSum, sent, supply0, win>>
+  /\ Always(e)
+  /\ Report("Setup.ReKeyed", e.res = "gov")
+TrEvidenceOld == IsEvent("EvidenceOld") /\ LET e == Trace[l]  a == e.args IN
+  /\ Obs(e.obs) /\ res' = e.res
+  /\ punished' = IF a.v \in jailed' \ jailed THEN punished \cup {[val |-> a.v, cp |-> EvCp(e), wasIssued |-> EvCp(e) \in issued]} ELSE punished
+  /\ UNCHANGED <<lastTx, lastBatch, tax, limit, claims, accepted, refunded, burned, deposited, burnedSum, sent, supply0, win>>
+  /\ Always(e)
+  /\ Report("C13.OnlyRegisteredKeyPunished", jailed' = jailed /\ e.res = "fail")
+
 TraceInit == Init /\ l = 1 /\ supply0 = [d \in Denoms |-> 0] /\ win = [d \in Denoms |-> NoUsage]
 TraceNext == \/ TrInit \/ TrSend \/ TrCancel \/ TrSetTax \/ TrSetLimit \/ TrClaim("ClaimExecuted") \/ TrClaim("ClaimDeposit")
-             \/ TrEndBlock \/ TrAdvance \/ TrEstimate \/ TrConfirm \/ TrEvidence
+             \/ TrEndBlock \/ TrAdvance \/ TrEstimate \/ TrConfirm \/ TrEvidence \/ TrReKey \/ TrEvidenceOld
 TraceAccepted == TLCGet("stats").diameter - 1 = Len(Trace)
 =============================================================================
